@@ -95,6 +95,41 @@ def e_step(model, ref, data, eps=0.0, mask=None):
     return M.bayes(L, ref['pi'], mask=mask, eps=eps), q, L
 
 
+def e_step_builtin(model, ref, data, eps=0.0):
+    """E-step of an integration model with its built-in spatial/spectral alignment: per frequency the
+    arrangement of the spatial classes that maximises sum_kn g_kn L_kn (g = softmax of L over the classes,
+    without weights) is chosen, the posterior is Bayes on the re-arranged table.  Returns
+    (gamma, q, ambiguous): ambiguous if two arrangements are closer than 1e-9 in some frequency."""
+    import itertools
+    import math
+    sw = ref['sw']
+    a, q = logpdf_table(model, dict(ref, sw=(1.0, 0.0)), data)
+    b, _ = logpdf_table(model, dict(ref, sw=(0.0, 1.0)), data)
+    sp, se = sw[0] * a, sw[1] * b
+    F, K, N = sp.shape
+    gamma = np.zeros((F, K, N))
+    amb = False
+    for f in range(F):
+        crit = []
+        for perm in itertools.permutations(range(K)):
+            L = sp[f][list(perm)] + se[f]
+            tot = 0.0
+            for n in range(N):
+                col = [float(L[k, n]) for k in range(K)]
+                mx = max(col)
+                e = [math.exp(c - mx) for c in col]
+                z = sum(e)
+                tot += sum(e[k] / z * col[k] for k in range(K))
+            crit.append((tot, perm))
+        best = max(c for c, _ in crit)
+        near = [p_ for c, p_ in crit if c >= best - 1e-9 * (1 + abs(best))]
+        if len(near) > 1:
+            amb = True
+        perm = next(p_ for c, p_ in crit if c == best)
+        gamma[f] = M.bayes((sp[f][list(perm)] + se[f])[None], ref['pi'][f][None], eps=eps)[0]
+    return gamma, q, amb
+
+
 def apply_aligner(gamma, q, aligner):
     """aligner: None | ('greedy', metric) | ('dhtv', F, start, width, shift, main, sub, metric, alg).
     gamma, q: (F, K, T).  Returns (gamma, q, ambiguous)."""
